@@ -455,6 +455,12 @@ int main()
 				if (b.IsFull()) out += "," + std::to_string(*&b.mItemBuffer);
 				out += ";";
 			}
+			out += " F:";
+			for (ull k = 1; k < g_table.size(); ++k)
+			{
+				auto pos = set.Find(k);
+				if (!pos) out += "-,"; else out += std::to_string(size_t(pos.mIndexCode)) + ",";
+			}
 			puts(out.c_str());
 		}
 		else if (cmd == "tp4" || cmd == "tp4c")
@@ -494,6 +500,14 @@ int main()
 				for (size_t j = 0; j < B::hashCount; ++j) out += "|" + std::to_string(b.mShortHashes[j]);
 				for (size_t j = 0; j < c; ++j) out += "," + std::to_string(b.mPtrState.GetPointer()[j]);
 				out += ";";
+			}
+			out += " F:";   // what the real HashSet::Find returns for every key
+			for (ull k = 1; k < g_table.size(); ++k)
+			{
+				auto pos = set.Find(k);
+				if (!pos) { out += "-,"; continue; }
+				size_t bi = pos.mIndexCode; auto& fb = bks[bi];
+				out += std::to_string(bi) + "." + std::to_string(size_t(std::addressof(*pos) - fb.mPtrState.GetPointer())) + ",";
 			}
 			puts(out.c_str());
 		}
